@@ -30,7 +30,11 @@ func (m *MW) String() string {
 	return fmt.Sprintf("%s(next x%d)", m.ID, m.Nexts)
 }
 
-// Handler builds the rux handler for this description.
+// Handler builds the rux handler for this description. Not inlined on purpose: every
+// middleware of a program is then a closure of one and the same function literal (as with
+// an application's logger(name) factory), wherever it is created.
+//
+//go:noinline
 func (m *MW) Handler() rux.HandlerFunc {
 	return func(c *rux.Context) {
 		rec := recOf(c)
